@@ -96,6 +96,11 @@ def _worker_chunk(args):
         except RunTimeout:
             out["errors"].append({"run_index": ri, "error": "run exceeded wall timeout (harness watchdog)"})
             continue
+        except RecursionError:
+            # a program nested deeper than the interpreter's recursion limit allows the REFERENCE to walk (the library's own
+            # RecursionErrors are caught and classified inside the run): abandoned like a run that exhausts the watchdog
+            out["errors"].append({"run_index": ri, "error": "run abandoned: the reference hit the recursion limit on a very deep program (harness watchdog)"})
+            continue
         except BaseException as e:  # harness bug: report, never a violation
             out["errors"].append({"run_index": ri, "error": "".join(traceback.format_exception(e))[-3000:]})
             continue
